@@ -158,6 +158,7 @@ func bufprop(r *simkit.Run, prop string) {
 			if rapid.IntRange(0, 2).Draw(rt, "partial-read") == 0 {
 				sc.readN = rapid.IntRange(0, ex.bodyLen+1).Draw(rt, "read-n")
 			}
+			sc.readHow = rapid.IntRange(0, 2).Draw(rt, "read-how")
 			sc.mutate = rapid.Bool().Draw(rt, "mutate")
 			sc.early = rapid.IntRange(0, 5).Draw(rt, "early-hints") == 0
 			sc.status = rapid.SampledFrom([]int{0, 0, 200, 200, 201, 204, 301, 304, 404, 500, 502, 503, 504}).Draw(rt, "status")
@@ -189,6 +190,9 @@ func bufprop(r *simkit.Run, prop string) {
 				}
 				sc.writes = append(sc.writes, n)
 				left -= n
+			}
+			if len(sc.writes) > 0 && rapid.IntRange(0, 4).Draw(rt, "trailing-empty-write") == 0 {
+				sc.writes = append(sc.writes, 0)
 			}
 			bodilessKind := ex.method == "HEAD" || sc.status == 204 || sc.status == 304
 			if prop != "C15" && bodilessKind {
